@@ -130,7 +130,7 @@ def run_tier(prop, tier, seed, binp, out, runs, budget, nworkers, race, summarie
             del procs[i]
             sp = os.path.join(out, "summary-%d.json" % i)
             s = json.load(open(sp)) if os.path.exists(sp) else None
-            if rc == 0 and s and s.get("finished"):
+            if s and s.get("finished"):
                 continue
             # crash: which run?
             try:
